@@ -24,6 +24,10 @@ Record case := {
   k_ivs : list oiv;              (* bnp.open(p, buffer_type=BamIntervalBuffer).read() *)
   k_ivs2 : option (list oiv);    (* alignment_to_interval(bnp.open(p).read()); None = the call raises *)
   k_after_iv : list orec;        (* the SAME entries read again after alignment_to_interval(entries) was called on them *)
+  k_sess : list (list orec);     (* two-file sessions: this file's records, read while ANOTHER BAM file with a different
+                                    reference dictionary is open in the same process, one entry per interleaving
+                                    (opened first / last, whole reads, chunked reads taken in turn) *)
+  k_sess_iv : list (list oiv);   (* the same for BamIntervalBuffer / alignment_to_interval *)
   k_chunked : list (Z * list Z * list orec);   (* chunk size, records per chunk, all records in order *)
   k_writes : list wobs
 }.
@@ -74,6 +78,8 @@ Definition spec_ok (c : case) : bool :=
   && all2 (iv_matches refs) rs (k_ivs c)
   && match k_ivs2 c with Some l => all2 (iv_matches refs) rs l | None => false end
   && all2 (rec_matches refs) rs (k_after_iv c)
+  && forallb (all2 (rec_matches refs) rs) (k_sess c)           (* a file's records depend on that file only *)
+  && forallb (all2 (iv_matches refs) rs) (k_sess_iv c)
   && forallb (fun '(k, counts, got) => all2 (rec_matches refs) rs got && (sumZ counts =? len rs)) (k_chunked c)
   && forallb (fun w =>
         let sel := select rs (w_idx w) in
@@ -97,6 +103,8 @@ Definition model_ok (c : case) : bool :=
           | None => existsb (fun i => match i_chrom i with Some _ => false | None => true end) m
           end)
       && all2 orec_eqb (decode_buf current names b) (k_after_iv c)
+      && forallb (all2 orec_eqb (decode_buf current names b)) (k_sess c)       (* the model has no state shared between files *)
+      && forallb (all2 oiv_eqb (intervals_buf current names b)) (k_sess_iv c)
       && forallb (fun '(k, counts, got) =>
             match read_chunks k body with
             | None => false
